@@ -288,10 +288,15 @@ Definition alloc_seq (x : seqlit) (k : hval -> cmd) : cmd :=
       if amem kfts items || negb (is_ascii (sl_data x)) then Fail EOut else
       let items := if amem kid items then items else aset kid (TStr []) items in
       alloc_items items [] (fun its =>
-        alloc_fts (sl_fts x) (fun f =>
-          Alloc (OC KMeta (aset kfts f its) []) (fun m =>
+        let fin := fun (its' : list (str * hval)) =>
+          Alloc (OC KMeta its' []) (fun m =>
             let d := upper (sl_data x) in
-            Alloc (OC KSeq [(kdata, HStr d); (kmeta, HRef m); (ktype, HStr (seq_type d))] []) (fun a => k (HRef a)))))
+            Alloc (OC KSeq [(kdata, HStr d); (kmeta, HRef m); (ktype, HStr (seq_type d))] []) (fun a => k (HRef a))) in
+        (* a sequence built without features has NO 'fts' item: BioSeq.fts creates it lazily (seq.py:316-324) *)
+        match sl_fts x with
+        | [] => fin its
+        | _ => alloc_fts (sl_fts x) (fun f => fin (aset kfts f its))
+        end)
   | None => Fail EOut
   end.
 Definition alloc_obj (o : objlit) (k : hval -> cmd) : cmd :=
@@ -500,6 +505,8 @@ Inductive bfn :=
                       meta.fts and nested metadata with the operand                                    seq.py:876-882, 221-243 *)
 | BBasketSetFts    (* basket.fts = fts : the features are grouped by meta.seqid; every sequence whose id has a group gets a NEW
                       FeatureList holding those feature OBJECTS (first sequence with that id wins)        seq.py:751-760, cane.py:28-45 *)
+| BGetFts          (* seq.fts (second operand unused): meta.setdefault('fts', FeatureList()) -- the getter stores a FRESH empty
+                      FeatureList in the metadata of a sequence that has none, and hands out the stored one   seq.py:316-324 *)
 | BIs.             (* a is b *)
 
 (* getattr(ft.meta, 'seqid', None) as a dict key: a str, or None (missing / None); anything else is outside the modelled domain *)
@@ -551,6 +558,17 @@ Definition bin_cmd (f : bfn) (a b : hval) : cmd :=
               else Write ml (set_slot mc kfts (HRef f)) (Ret HNull)))
         | _, _, _ => Fail EOut
         end))
+  | BGetFts =>
+      rd a (fun _ c =>
+        match ocls c, aget kmeta (ofs c) with
+        | KSeq, Some m =>
+            rd m (fun ml mc =>
+              match aget kfts (ofs mc) with
+              | Some v => Ret v
+              | None => Alloc (OC KFts [] []) (fun f => Write ml (set_slot mc kfts (HRef f)) (Ret (HRef f)))
+              end)
+        | _, _ => Fail EOut
+        end)
   | BBasketSetFts =>
       rd a (fun _ c => rd b (fun _ c2 =>
         match ocls c, ocls c2 with
